@@ -83,6 +83,13 @@ func (v *StructSchema) process(ctx *p.SchemaCtx) {
 		// This is a little bit hacky. But we want to exit here because the error came from zhttp. Meaning we had an error trying to parse the request.
 		// I'm not sure if this is the best behaviour? Do we want to exit here or do we want to continue processing (ofc we add the error always)
 		if err != nil {
+			// the front end only knows the code and the cause: complete the issue like any other issue of this node
+			if err.Dtype == "" {
+				err.SetDType(v.getType())
+			}
+			if err.Path == "" {
+				err.SetPath(ctx.Path.String())
+			}
 			ctx.AddIssue(ctx.IssueFromUnknownError(err))
 			return
 		}
